@@ -22,6 +22,7 @@ type C04Case struct {
 	Text string `json:"text"`
 	CLI  bool   `json:"cli,omitempty"`
 	File bool   `json:"file,omitempty"` // CLI: the text is the FILE argument instead of standard input
+	Dev  bool   `json:"dev,omitempty"`  // CLI: the FILE argument is /dev/stdin, fed by a pipe (a FILE need not be a regular file)
 }
 
 func trimR(s string) string { return strings.TrimRightFunc(s, unicode.IsSpace) }
@@ -264,6 +265,9 @@ func checkC04(c C04Case) *Violation {
 	if c.File {
 		// the same text given as the FILE argument: the command's glue around the parser differs, the language does not
 		run = Run{Argv: []string{"text", "parse", "@in.txt"}, Files: map[string]string{"in.txt": c.Text}, NoStdin: true}
+	}
+	if c.Dev {
+		run = Run{Argv: []string{"text", "parse", "/dev/stdin"}, Stdin: c.Text}
 	}
 	res := run.Exec()
 	if res.TimedOut {
@@ -524,7 +528,7 @@ func TestC04Sentences(t *testing.T) {
 		}
 		r.Check(t, diffParse(text), "c04", c)
 		if coin(t, "cli", 10) {
-			cc := C04Case{Text: text, CLI: true, File: rapid.Bool().Draw(t, "as-file")}
+			cc := C04Case{Text: text, CLI: true, File: rapid.Bool().Draw(t, "as-file"), Dev: coin(t, "as-dev-stdin", 15)}
 			r.Case("CLI:"+text, true, "through-cli")
 			r.Check(t, checkC04(cc), "c04", cc)
 		}
@@ -540,7 +544,7 @@ func TestC04Sentences(t *testing.T) {
 				long = strings.Repeat(one, 66000/len(one)+1+rapid.IntRange(0, 40).Draw(t, "long-rep"))
 				r.Class("piece-on-one-line>64KiB", 1)
 			}
-			cc := C04Case{Text: one + "\n" + long + "\n" + one, CLI: true, File: rapid.Bool().Draw(t, "as-file")}
+			cc := C04Case{Text: one + "\n" + long + "\n" + one, CLI: true, File: rapid.Bool().Draw(t, "as-file"), Dev: coin(t, "as-dev-stdin", 15)}
 			r.Case(fmt.Sprintf("CLI-long:%d:%s", len(long), one), true, "through-cli")
 			r.Check(t, checkC04(cc), "c04", cc)
 		}
@@ -559,7 +563,7 @@ func TestC04Sentences(t *testing.T) {
 			r.Case("M:"+mt, true, "mutation", "mutation:"+kind, "mutated:"+statusName(mst))
 			r.Check(t, diffParse(mt), "c04", C04Case{Text: mt})
 			if m == 0 && coin(t, "mut-cli", 10) {
-				cc := C04Case{Text: mt, CLI: true, File: rapid.Bool().Draw(t, "as-file")}
+				cc := C04Case{Text: mt, CLI: true, File: rapid.Bool().Draw(t, "as-file"), Dev: coin(t, "as-dev-stdin", 15)}
 				r.Case("CLI:"+mt, true, "through-cli")
 				r.Check(t, checkC04(cc), "c04", cc)
 			}
@@ -571,7 +575,7 @@ func TestC04Sentences(t *testing.T) {
 		r.Check(t, diffParse(sg), "c04", C04Case{Text: sg})
 		if coin(t, "garbage-cli", 12) {
 			// the command adds its own glue around the parser (what it does with the lexer's error)
-			cc := C04Case{Text: sg, CLI: true, File: rapid.Bool().Draw(t, "as-file")}
+			cc := C04Case{Text: sg, CLI: true, File: rapid.Bool().Draw(t, "as-file"), Dev: coin(t, "as-dev-stdin", 15)}
 			r.Case("CLI:"+sg, true, "through-cli", "garbage-through-cli")
 			r.Check(t, checkC04(cc), "c04", cc)
 		}
